@@ -12,7 +12,7 @@
     c20-scan-back.diff and c20-serialise-first.diff applied (the version the check ties to
     /repo).  Status: the full statement is FALSE for both versions (torn tail); for the original
     code it is false in two more ways, which the two patches repair. *)
-From YV Require Import lib.Base model.YLog spec.LogSpec proof.LogProofs.
+From YV Require Import lib.Base model.YLog spec.LogSpec proof.LogProofs proof.LogSizes.
 
 (** the property at full strength *)
 Definition C20_audit_statement (c : cfg) : Prop :=
@@ -66,6 +66,65 @@ Theorem C20_audit_guarded_any_version : forall c thr h,
   admissible_run c thr (start_on c []) h = true -> audit (observe (run c thr h)) = true.
 Proof. exact audit_admissible. Qed.
 Print Assumptions C20_audit_guarded_any_version.
+
+(** RECORD SIZES.  In the abstract model a line is a list element, so that start-up finds "the
+    last line of the newest file that has one" whatever its length is built in; the three
+    theorems below make that explicit and the check ties it to the code with records from 47 to
+    more than 70000 octets (harness/props/c20.py, "record-size dimension").
+
+    (a) On octets: `for line in fh: pass` ends with the last line of the text, for EVERY length
+    of that line and of the text before it ([terminated pre]: empty or ending in a newline);
+    an unterminated tail is returned as it is. *)
+Theorem C20_recovery_reads_last_line : forall pre l,
+  terminated pre -> ~ In 10 l ->
+  last_line (pre ++ l ++ [10]) = l ++ [10] /\ (l <> [] -> last_line (pre ++ l) = l).
+Proof. exact last_line_any_length. Qed.
+Print Assumptions C20_recovery_reads_last_line.
+
+(** (b) The octet-level start-up (newest file with an octet, its last line, branch on the first
+    character; json.loads(..)['seq'] and eval(..)[1] are ANY two partial functions) computes
+    exactly the abstract [scan] of the abstracted directory: no bound on any length. *)
+Theorem C20_recovery_octets_refine : forall pj pl fs,
+  recover_octets pj pl fs = scan (map (abs_file pj pl) fs).
+Proof. exact recover_refines. Qed.
+Print Assumptions C20_recovery_octets_refine.
+
+(** (c) Recovery and numbering are independent of record sizes: two runs of the repaired code
+    whose histories agree up to the octet counts of the records, the offsets of the cuts (same
+    class: nothing / all / all but the newline / a proper part) and the rotation threshold give
+    the auditor the same sequence of lines, the same refusals and count of reported events, the
+    same next sequence number, hence the same audit verdict.  Sizes and thresholds only decide
+    in which file a line lands. *)
+Theorem C20_recovery_independent_of_sizes : forall thr1 thr2 h1 h2,
+  map shape_of h1 = map shape_of h2 ->
+  all_lines (observe (run cfg_fixed thr1 h1)) = all_lines (observe (run cfg_fixed thr2 h2)) /\
+  refused (observe (run cfg_fixed thr1 h1)) = refused (observe (run cfg_fixed thr2 h2)) /\
+  reported (observe (run cfg_fixed thr1 h1)) = reported (observe (run cfg_fixed thr2 h2)) /\
+  alive (run cfg_fixed thr1 h1) = alive (run cfg_fixed thr2 h2) /\
+  audit (observe (run cfg_fixed thr1 h1)) = audit (observe (run cfg_fixed thr2 h2)).
+Proof. exact sizes_irrelevant_fixed. Qed.
+Print Assumptions C20_recovery_independent_of_sizes.
+
+(** (c) is about the repaired start-up; it is false for the code as found (newest file only) *)
+Example C20_sizes_matter_orig :
+  let h := [Ev UpdateReceived true 147; Restart] in
+  alive (run cfg_orig 100 h) = Some 1 /\ alive (run cfg_orig 1000 h) = Some 2.
+Proof. exact sizes_matter_orig. Qed.
+
+(** (a) is not true of every reader: one that looks at the last 4096 octets of the file is handed
+    text that does not start with '{' as soon as the last line has 4097 octets *)
+Example C20_block_reader_differs :
+  let b := [123; 125; 10] ++ 123 :: rep 120 4094 ++ [125; 10] in
+  len (last_line b) = 4097 /\ hd 0 (last_line b) = 123 /\
+  hd 0 (last_line (block_tail 4096 b)) = 120 /\
+  last_line (block_tail 4097 b) = last_line b.
+Proof. exact block_reader_differs. Qed.
+
+(** the hypothesis of (c) relates histories that really differ in sizes *)
+Example C20_shape_nonvacuous :
+  map shape_of [Ev SendOpen true 52; Ev UpdateReceived true 147; Crash UpdateReceived true 147 10; Restart] =
+  map shape_of [Ev SendOpen true 70000; Ev UpdateReceived true 4097; Crash UpdateReceived true 70000 69000; Restart].
+Proof. exact shape_example. Qed.
 
 (** the audit's "+1 from line to line" implies that no sequence number is used twice *)
 Theorem C20_never_reused : forall ls, consecutive ls = true -> NoDup (seqs ls).
